@@ -490,9 +490,17 @@ func (w *World) Exec(op Op) *Result {
 				se.live, se.released = false, true
 			}
 		}
+	case "aged":
+		// the subscriber's rating group has been in use for a long time: its credit-control request counter stands at
+		// op.Amt (reachable only by that many requests); it never goes back
+		res.Status = http.StatusNoContent
+		if cur := snapshot(st.supi); !cur.Exists || uint64(cur.ReqNum[op.RG]) >= uint64(op.Amt) || !verifapi.SetAcctRequestNum(st.supi, act(st.supi, op.RG), uint32(op.Amt)) {
+			res.Skipped = true
+			return res
+		}
 	case "bystanders":
 		// N other subscribers each open a session (no quota asked, nothing reported) and every other one closes
-		// it again: the CHF's process-wide population (subscriber contexts, sessions, records, the record counter)
+		// it again (with sess = 1 all of them stay): the CHF's process-wide population (subscriber contexts, sessions, records, the record counter)
 		// grows while the subscribers of the history are idle
 		res.Status = http.StatusCreated
 		nf := &models.ChfConvergedChargingNfIdentification{NFName: "smf", NodeFunctionality: "SMF"}
@@ -507,7 +515,7 @@ func (w *World) Exec(op Op) *Result {
 				res.Status, res.Body, res.Path = code, []byte(fmt.Sprintf("bystander %d of %d (create for %s): %.200s", i+1, op.N, supi, rb)), prefix+"/chargingdata"
 				break
 			}
-			if i%2 == 0 {
+			if i%2 == 0 && op.Sess == 0 {
 				path := prefix + "/chargingdata/" + url.PathEscape(refOf(hd.Get("Location"))) + "/release"
 				req.InvocationSequenceNumber = 2
 				body, _ = json.Marshal(req)
